@@ -338,7 +338,7 @@ type subst struct {
 	nullAlias bool
 }
 
-var scalarPool = []string{"docker:", "docker:/", "docker:x", "docker", ".", "..", "./.", "a/b@c:d", "docker://a:", "./x.yml@main", "./", "docker://", "owner/repo@", "checkout@feature/x", "a@b/c", "@/", "/@", "@", "a/b/c@", "a//b@c", "./@x/", "nan", ".nan", ".inf", "-.inf", "inf", "-0", "0x10", "0o17", "1e400", "1_000", "", "~", "true",
+var scalarPool = []string{"TZ=UTC", "CRON_TZ=UTC", "TZ=", "CRON_TZ=", "TZ=UTC 0 0 * * *", "TZ= 0 0 * * *", "@every 1h", "@every", "@", "@daily", "*/0 * * * *", "0- * * * *", "1-0 * * * *", "? ? ? ? ?", "99999999999999999999 * * * *", "0 0 * * * *", "* * * *", "docker:", "docker:/", "docker:x", "docker", ".", "..", "./.", "a/b@c:d", "docker://a:", "./x.yml@main", "./", "docker://", "owner/repo@", "checkout@feature/x", "a@b/c", "@/", "/@", "@", "a/b/c@", "a//b@c", "./@x/", "nan", ".nan", ".inf", "-.inf", "inf", "-0", "0x10", "0o17", "1e400", "1_000", "", "~", "true",
 	"123456789012345678901234567890123456789012345678901234567890", "NaN", "0", "-1", "1.5", "${{ x }}", " ${{ x }} ", "${{ a }} ${{ b }}", "a b"}
 
 var tagPool = []string{"!!float", "!!int", "!!bool", "!!null", "!!str", "!!binary"}
